@@ -115,12 +115,11 @@ def obligations(tier, seed):
            outside="field-2 routing in vbi_decode_caption (which pairs reach the separator); second bytes with a parity error other than the two listed",
            grid=sep_t, quick_grid=sep_q,
            reach=["end", "cur", "key"], timeout=700, mem_gb=4, vin_size=4096),
-        # KNOWN_future_aspect_overwrites_current: suspected defect of /repo, reported and not fixed: caption.c xds_decoder(), class FUTURE type 0x09 (aspect ratio)
-        # stores into vbi->prog_info[0].aspect (the CURRENT programme), sets aspect_source = 3 and raises VBI_EVENT_ASPECT.  Without the define the instances
-        # [XCLS=1,XTYP=0x09,*] are REFUTED on the unchanged tree (VP:dec_frame_decoder_head, replays/C09/caption_xds_decoder_XCLS_1_XLEN_2_XTYP_0x09_*.json,
-        # also reproduced through the public API).  Remove the define when the defect is fixed or listed in known_findings.json.
+        # Defect of the pinned tree, repaired by a fix commit in /repo: caption.c xds_decoder(), class FUTURE type 0x09 (aspect ratio) stored into
+        # vbi->prog_info[0].aspect (the CURRENT programme), set aspect_source = 3 and raised VBI_EVENT_ASPECT.  Decided by the instances [XCLS=1,XTYP=0x09,*]
+        # (VP:dec_frame_decoder_head: a future-class packet leaves the current programme's record alone).
         Ob("caption_xds_decoder", func="h_xdsdec", unwind=70, unwindset={"frame_head.0": 2000, "xds_decoder.4": 42},
-           defines={"C09_SMALL_CC": 1, "KNOWN_future_aspect_overwrites_current": 1},
+           defines={"C09_SMALL_CC": 1},
            patch={"src/cc.h": _cc_h_small, "src/caption.c": _caption_xds_part},
            desc="xds_decoder for one (class, type, length) per instance, payload, programme information of both classes, network record and info_cycle arbitrary: "
                 "every write inside the record of that class / the network record (frame over the decoder head and the caption channels written in the harness); "
